@@ -253,6 +253,12 @@ class Program:
         """Role-based attribute names, then inlining of non-anchor private helpers (hwverif.normalize)."""
         from .normalize import apply_renames, flatten_program, role_renames, split_conditional_returns, unfold_missing_predicates
 
+        from .normalize import distinguish_cancelled_errors
+
+        dist = distinguish_cancelled_errors(self)
+        if dist:
+            self.normalisation_log += dist
+            self._reindex()
         unfolded = unfold_missing_predicates(self)
         if unfolded:
             self.normalisation_log += unfolded
